@@ -380,35 +380,32 @@ def _calls(repo, rep):
               "stack is the node's slots list (fill-slots of the children "
               "reach the node)", construct="slots-shared", where=L.where(f))
     # merge-out for both (also C05.R05.3) -- cheap to restate here
+    from .c05 import merge_after_macro
     for name in ("visit_UseInternalMacro", "visit_UseExternalMacro"):
-        g = repo.func(COMP + name)
-        r = L.emission(repo, g.qualname)
-        lin = L.Lin(r.emission)
-        call = lin.index(lambda it: isinstance(it, A.Frag) and bool(
-            L.frag_find(it, "_F(__stream, econtext.copy(), rcontext, "
-                            "__i18n_domain, __i18n_context, target_language)",
-                        "expr")))
-        upd = lin.index(lambda it: isinstance(it, A.Frag) and bool(
-            L.frag_find(it, "econtext.update(rcontext)", "expr")))
-        rep.check(0 <= call < upd, "R09.3", g.qualname,
-                  "macro call with a copy of the scope, then "
-                  "econtext.update(rcontext)", construct="call-merge",
+        mo = merge_after_macro(repo, name)
+        g = mo["func"]
+        rep.check(mo["call"] is not None and mo["upd"] is not None and
+                  mo["call"] < mo["upd"], "R09.3", g.qualname,
+                  "macro call with a copy of the scope, then the globals are "
+                  "merged into the caller's scope (econtext.update(...))",
+                  construct="call-merge", where=L.where(g))
+        # unconditional: a re-assigned global changes no length or key set,
+        # so the merge must not depend on either -- every global whose value
+        # object differs from before the call is written
+        rep.check(mo["top"] and mo["filter_ok"], "R09.3", g.qualname,
+                  "the merge of the globals into the caller's scope is "
+                  "unconditional and passes every new or re-assigned global "
+                  "(a macro may re-assign an existing global)",
+                  construct="merge-unconditional", where=L.where(g),
+                  detail=mo["detail"])
+        # ... and nothing else: using a macro that defines no global leaves
+        # the caller's scope as an inlined copy of the macro would
+        rep.check(mo["upd"] is not None and not mo["bare"], "R09.3",
+                  g.qualname, "the merge writes only globals the macro "
+                  "(re)defined: a caller's local that shadows an older "
+                  "global is not replaced by using a macro  [shared with "
+                  "C05 R05.3]", construct="macro-merge-overwrites-shadow",
                   where=L.where(g))
-        # unconditional: a re-assigned global changes no length or key set
-        uncond = False
-        if upd >= 0:
-            it, conds, path = lin.rows[upd]
-            top = [st for st in it.tree.body if isinstance(st, ast.Expr) and
-                   L.match(L.pat("econtext.update(rcontext)", "expr"),
-                           st.value) is not None]
-            uncond = bool(top) and not conds and not any(
-                isinstance(n, A.Py) and n.kind in ("If", "While", "Try",
-                                                   "ExceptHandler")
-                for n, fld in path)
-        rep.check(uncond, "R09.3", g.qualname, "the merge of the globals "
-                  "into the caller's scope is unconditional (a macro may "
-                  "re-assign an existing global)",
-                  construct="merge-unconditional", where=L.where(g))
     # the symbols 'macros' / 'template' of a macro body are those of the
     # template that defines it: they are compiled as builtins and looked up
     # in the variable scope first, and the scope is copied into every macro
